@@ -1,6 +1,8 @@
 import Regatta.Driver.Proto
 import Regatta.Model.Fsm
 import Regatta.Model.Snapshot
+import Regatta.Model.ReadPath
+import Regatta.Model.Api
 /-
   fsm mode of the driver (DESIGN.md Appendix C): parses the operation lines written by the Go
   harness, runs `Regatta.Fsm`, prints answers in the harness's canonical form.
@@ -165,6 +167,8 @@ structure St where
   parked : List (Nat × Nat × Snap.LazyRead × Option RangeResp × Db) := []
   /-- pinned snapshot values (PrepareSnapshot) -/
   pins : List (Nat × Db) := []
+  /-- rpath mode: the log index of the last entry applied where consensus reads are answered -/
+  lastCommitted : Nat := 0
 
 def St.rep (st : St) (i : Nat) : Option Snap.Rep := (st.reps.find? (·.1 == i)).map (·.2)
 def St.putRep (st : St) (i : Nat) (r : Snap.Rep) : St := { st with reps := (i, r) :: st.reps.filter (·.1 != i) }
@@ -175,6 +179,20 @@ def fmtOf : String → Option Snap.Fmt
   | "0" => some .snapshot
   | "1" => some .checkpoint
   | _ => none
+
+/-- the table layer's checks in front of the state machine (ActiveTable.Range / Iterator / Txn), via
+the acceptance model of C16 -/
+def rangeAccepted (r : RangeReq) : Bool :=
+  (Api.rangeLimits { table := [1], klen := r.key.length, relen := (r.rangeEnd.getD []).length }).isNone
+
+def apiOp : ReqOp → Api.Op
+  | .range r => .range r.key.length (r.rangeEnd.getD []).length
+  | .put k v _ => .put k.length v.size
+  | .del k e _ _ => .del k.length (e.getD []).length
+  | .none => .none
+
+def txnAccepted (c : List Compare) (s f : List ReqOp) : Bool :=
+  Api.kvTxn [[1]] ⟨[1], c.map (fun x => ⟨x.key.length, (x.rangeEnd.getD []).length⟩), s.map apiOp, f.map apiOp⟩ == .ok
 
 def chunksStr (chunks : List RangeResp) : String :=
   s!"ok {chunks.length}" ++ String.join (chunks.map (fun c => " " ++ rrStr c))
@@ -260,6 +278,75 @@ def step (st : St) (toks : List String) : St × String :=
   | ["copy", a, b] => match a.toNat?, b.toNat? with
     | some a, some b => match st.get a with
       | some db => (st.set b db, "ok")
+      | none => bad
+    | _, _ => bad
+  | "apply" :: i :: rest =>
+    match i.toNat?, pEntry rest with
+    | some i, some (e, []) => match st.get i with
+      | some db => match update db [e] with
+        | .ok (db', _, _) =>
+          let st := st.set i db'
+          (if i == 0 then { st with lastCommitted := e.index } else st, "ok")
+        | .error err => (st, errStr err)
+      | none => bad
+    | _, _ => bad
+  | ["acked", _] =>
+    -- an acknowledged put / delete / transaction reports the log index of its entry
+    (st, s!"rev {st.lastCommitted}")
+  | "rread" :: kind :: lin :: rest =>
+    -- which state answers: the routing of table.go (ReadPath.path); instance 0 has everything
+    -- committed, instance 1 is the lagging local replica
+    let inst (p : ReadPath.Path) : Nat := match p with | .localRead => 1 | _ => 0
+    match kind with
+    | "range" => match pRange rest with
+      | some (r, []) =>
+        if !rangeAccepted r then (st, "err other") else
+        match st.get (inst (ReadPath.path { kind := .range, linearizable := lin == "1" })) with
+        | some db => match lookup db r with
+          | .ok resp => (st, "ok " ++ rrStr resp)
+          | .error e => (st, errStr e)
+        | none => bad
+      | _ => bad
+    | "iter" => match pRange rest with
+      | some (r, []) =>
+        if !rangeAccepted r then (st, "err other") else
+        match st.get (inst (ReadPath.path { kind := .iterate, linearizable := lin == "1" })) with
+        | some db => match iteratorLookup db r with
+          | .ok chunks => (st, chunksStr chunks)
+          | .error e => (st, errStr e)
+        | none => bad
+      | _ => bad
+    | "txn" => match pTxn rest with
+      | some ((c, s, f), []) =>
+        if !txnAccepted c s f then (st, "err other") else
+        match ReadPath.path { kind := .txn, success := s, failure := f } with
+        | .proposal => bad
+        | p => match st.get (inst p) with
+          | some db => match lookupTxn db c s f with
+            | .ok (ok, rs) => (st, s!"ok {b2s ok} {respsStr rs}")
+            | .error e => (st, errStr e)
+          | none => bad
+      | _ => bad
+    | _ => bad
+  | "kf" :: "K2" :: "upd" :: i :: rest =>
+    -- a range delete with prev_kv: the code reports the first message of the range read (known
+    -- finding K2 when the range exceeds the message budget); the property wants every removed pair
+    match i.toNat?, pList pEntry rest with
+    | some i, some ([e], []) => match st.get i with
+      | some db => match update db [e] with
+        | .ok (db', rs, notified) =>
+          let hdr := s!"ok {notified}@{readIndex db' Key.sysLocalIndex} {rs.length}"
+          let asCode := hdr ++ String.join (rs.map (fun r => " " ++ resultStr r))
+          let conforming := match e.cmd with
+            | .del k (some hi) true _ =>
+              match iteratorLookup db { key := k, rangeEnd := some hi } with
+              | .ok chunks =>
+                let all := chunks.flatMap (·.kvs)
+                hdr ++ " " ++ resultStr ⟨resultSuccess, some (e.index, [.del all.length all])⟩
+              | .error _ => asCode
+            | _ => asCode
+          (st.set i db', if conforming == asCode then asCode else s!"{asCode} || {conforming}")
+        | .error err => (st, errStr err)
       | none => bad
     | _, _ => bad
   | "upd" :: i :: rest =>
